@@ -219,6 +219,13 @@ CHECK_DEADLOCK FALSE
             key = bytes(rng.randrange(1, 256) for _ in range(n))
             area, stored = refguard.protect(bodies[0], key, ["user"])
             jobs2.append(({"body": 1, "area": L(area), "key": L(key), "keylen": n, "opts": ["user"], "kind": "none", "stored": stored, "reportable": True}, "raw", ("guard_at", base_off + d), rng.randrange(1 << 30)))
+    # configurations whose settings come in another order (the protocol setting not first, last, or absent): "all configurations"
+    head_ = tlv.http_config(b"\x30\x81" + bytes(range(1, 160)))
+    for order, n in ((head_[1:] + head_[:1], 15), (head_[1:2] + head_[:1] + head_[2:], 2), (head_[1:], 97), (head_[::-1], 6)):
+        bodies.append(b"".join(order))
+        key = bytes(rng.randrange(1, 256) for _ in range(n))
+        area, stored = refguard.protect(bodies[-1], key, ["user", "ip"])
+        jobs2.append(({"body": len(bodies), "area": L(area), "key": L(key), "keylen": n, "opts": ["user", "ip"], "kind": "none", "stored": stored, "reportable": True}, "raw", rng.choice(["zero", "mid"]), rng.randrange(1 << 30)))
     # a uniform run that ties with the zero padding in the n-gram statistics of the key length (keys longer than 128 bytes:
     # shorter ones are also found through a multiple of their length)
     n_tie = 0
@@ -267,6 +274,28 @@ CHECK_DEADLOCK FALSE
             ctx.violation("from_bytes outcome differs from the expectation", {"op": "guardrails", "kind": row["kind"], "failed": "not_recovered" if row["reportable"] else "reported_without_match"},
                           {"keylen": row["keylen"], "opts": row["opts"], "from_bytes": res["from_bytes"]})
         ctx.count_distinct(("rnd", row["keylen"], row["kind"]))
+    # two protected areas in one payload: a damaged copy whose guard configuration stores the checksum of the intact configuration, followed by
+    # the intact configuration under a guard configuration that stores no checksum at all. Neither may be reported: what is known about one
+    # area says nothing about another.
+    from dissect.cobaltstrike import beacon as _beacon
+
+    for n in ([5, 64] if q else [2, 5, 16, 64, 200]):
+        key = bytes(rng.randrange(1, 256) for _ in range(n))
+        intact = bodies[0]
+        damaged = bytearray(intact)
+        damaged[9] ^= 0x40
+        s_intact = refguard.checksum(intact.ljust(6144, b"\x00")) + 1
+        area1, _ = refguard.protect(bytes(damaged), key, ["user"], s_intact)
+        area2, _ = refguard.protect(intact, key, ["computer", "nochecksum"], 0)
+        fill = lambda k: bytes(rng.randrange(1, 255) for _ in range(k))  # noqa: E731
+        for first, second in ((area1, area2), (area2, area1)):
+            data = fill(100) + first + fill(300) + second + fill(50)
+            o = core.guarded(_beacon.BeaconConfig.from_bytes, data, seconds=300)
+            ctx.evaluations += 1
+            if o[0] != "ValueError":
+                ctx.violation("a configuration was reported although the stored checksum cannot match", {"op": "guardrails", "kind": "two_areas", "failed": "reported_without_match" if o[0] == "ok" else "exception"},
+                              {"keylen": n, "order": "damaged_first" if first is area1 else "unchecked_first", "got": o[0] if o[0] != "ok" else "a configuration"})
+        ctx.count_distinct(("two_areas", n))
     if q:
         ev = ev[:: max(1, len(ev) // 24)]
     bad = core.tlc_judge(ctx, "GuardIO", ioc, ev, env={"TIER": ctx.tier, "BODY": str(bf)}, timeout=2400)
